@@ -13,7 +13,7 @@ THEOREMS = ['WV.C11.interleave4_get', 'WV.C11.colifilt1_raises_iff', 'WV.C11.inv
             'WV.C03T.reflect_eq_symIdx', 'WV.C03T.symm_pad_1d_eq', 'WV.C03T.symmPad_eq_gather',
             'WV.C11P.invJ1_eq_ref', 'WV.C11P.invJ2_eq_ref', 'WV.C11P.crop_rect', 'WV.C11P.go_eq_ref', 'WV.C11P.dtcwt_inverse_eq_ref',
             'WV.C11Z.invJ2_absent_high_eq_zeros', 'WV.C11Z.invJ2_absent_low_eq_zeros',
-            'WV.C11Z.invJ1_absent_high_eq_zeros', 'WV.C11Z.invJ1_absent_low_eq_zeros']
+            'WV.C11Z.invJ1_absent_high_eq_zeros', 'WV.C11Z.invJ1_absent_low_eq_zeros', 'WV.C04Z.cropToHighs_gen']
 OPS = ['colifilt', 'rowifilt', 'c2q', 'inv_j1', 'inv_j2plus', 'DTCWTInverse']
 KF_MID = 'C11-absent-level-after-extension'
 
